@@ -75,10 +75,13 @@ extern "C"
             __tsan_get_report_mop(rep, (unsigned long)m, &tid, &addr, &size, &write, &atomic, trace, 24);
             for (int k = 0; k < 24 && trace[k]; ++k)
             {
-                char buf[1024];
-                buf[0] = 0;
-                if (__sanitizer_symbolize_pc) __sanitizer_symbolize_pc(trace[k], "%s:%l", buf, sizeof buf);
-                const char *p = std::strstr(buf, "/include/Spline");
+                // the buffer receives one zero-terminated string per (inlined) frame of this pc, ended by an empty string
+                char buf[4096];
+                std::memset(buf, 0, sizeof buf);
+                if (__sanitizer_symbolize_pc) __sanitizer_symbolize_pc(trace[k], "%s:%l", buf, sizeof buf - 2);
+                const char *p = nullptr;
+                for (const char *q = buf; *q && q < buf + sizeof buf - 2; q += std::strlen(q) + 1)
+                    if ((p = std::strstr(q, "/include/Spline")) != nullptr) break;
                 if (p)
                 {
                     repo = true;
